@@ -390,14 +390,36 @@ impl Sys {
 
     /// One call with the wake-ups it caused; Err(message) if the code under test panicked.
     fn step(&mut self, c: &Call) -> Result<(Ans, usize, usize, Obs), String> {
-        let w0 = self.wcnt.0.load(Ordering::SeqCst);
+        // Every call of the application half comes with a waker of its own (the write half may be polled from
+        // different tasks, `select!` branches, ... over its life): a wake-up counts only if it reaches the waker of
+        // the MOST RECENT caller - one that is still registered from an earlier, abandoned wait is not that.
+        // (the waiter = the most recent call that was answered Pending; `wcnt` counts wake-ups of ITS waker)
+        let app_call = matches!(c, Call::Write(_) | Call::WriteV(_) | Call::Flush | Call::Shutdown);
+        let waiter = self.wcnt.clone();
+        let waiter_waker = self.wwaker.clone();
+        let fresh = Arc::new(Cnt(AtomicUsize::new(0)));
+        if app_call {
+            self.wwaker = Waker::from(fresh.clone());
+        }
+        let w0 = waiter.0.load(Ordering::SeqCst);
         let d0 = self.dcnt.0.load(Ordering::SeqCst);
         let (a, o) = sut(|| {
             let a = self.exec(c);
             let o = self.obs();
             (a, o)
         })?;
-        Ok((a, self.wcnt.0.load(Ordering::SeqCst) - w0, self.dcnt.0.load(Ordering::SeqCst) - d0, o))
+        let mut woken = waiter.0.load(Ordering::SeqCst) - w0;
+        if app_call {
+            woken += fresh.0.load(Ordering::SeqCst);
+            // (a Pending answer that only yields - the call wakes itself and is polled again - registers nothing)
+            let registered = a.res == "pending" && fresh.0.load(Ordering::SeqCst) == 0;
+            if registered {
+                self.wcnt = fresh;          // this call is the waiter now
+            } else {
+                self.wwaker = waiter_waker; // nobody new waits: the earlier waiter (if any) still does
+            }
+        }
+        Ok((a, woken, self.dcnt.0.load(Ordering::SeqCst) - d0, o))
     }
 }
 
